@@ -111,8 +111,9 @@ func (b *setextHeadingParser) Close(node ast.Node, reader text.Reader, pc Contex
 		id, ok := node.AttributeString("id")
 		if !ok {
 			generateAutoHeadingID(heading, reader, pc)
-		} else {
-			pc.IDs().Put(id.([]byte))
+		} else if bid, ok := id.([]byte); ok {
+			// attribute values may not be bytes(i.e. {id=1})
+			pc.IDs().Put(bid)
 		}
 	}
 }
